@@ -12,7 +12,19 @@ type commandSequence struct {
 
 func (c commandSequence) handle(ctx *updateContext) (UpdateResult, *regattapb.CommandResult, error) {
 	res := &regattapb.CommandResult{Revision: ctx.index}
+	// A replicated sequence could be proposed again (after a proposal timeout) even though the first proposal
+	// got committed, the commands at or below the recorded leader index took effect already.
+	recorded, err := ctx.recordedLeaderIndex()
+	if err != nil {
+		return ResultFailure, nil, err
+	}
+	if c.LeaderIndex != nil && *c.LeaderIndex < recorded {
+		ctx.leaderIndex = &recorded
+	}
 	for _, cmd := range c.Sequence {
+		if cmd.LeaderIndex != nil && *cmd.LeaderIndex <= recorded {
+			continue
+		}
 		_, cmdRes, err := wrapCommand(cmd).handle(ctx)
 		if err != nil {
 			return ResultFailure, nil, err
